@@ -15,26 +15,26 @@ import (
 )
 
 type debScenario struct {
-	members     []string // member names in archive order
-	nextErr     bool     // Next fails after the members instead of io.EOF
-	binary      string   // content of debian-binary ("" = empty file)
-	tarEntries  []string // names in the control tarball
-	ctorErr     string   // constructor name whose call fails ("" = none)
+	members      []string // member names in archive order
+	nextErr      bool     // Next fails after the members instead of io.EOF
+	binary       string   // content of debian-binary ("" = empty file)
+	tarEntries   []string // names in the control tarball
+	ctorErr      string   // constructor name whose call fails ("" = none)
 	unmarshalErr bool
-	closeErr    bool
+	closeErr     bool
 }
 
 type debOutcome struct {
-	errNil      bool
-	resNil      bool
-	controlExt  string
-	dataExt     string
-	dataProv    string
-	unmarshaled string // provenance of the reader given to control.Unmarshal ("" = not called)
+	errNil          bool
+	resNil          bool
+	controlExt      string
+	dataExt         string
+	dataProv        string
+	unmarshaled     string // provenance of the reader given to control.Unmarshal ("" = not called)
 	unmarshalTarget string
-	indexKeys   []string
-	effects     []string
-	undecided   string
+	indexKeys       []string
+	effects         []string
+	undecided       string
 }
 
 func (o debOutcome) sig() string {
@@ -42,11 +42,11 @@ func (o debOutcome) sig() string {
 }
 
 var ctorNames = map[string]string{
-	"compress/gzip.NewReader":                        "gzip",
-	"compress/bzip2.NewReader":                       "bzip2",
-	"github.com/xi2/xz.NewReader":                    "xz",
-	"github.com/kjk/lzma.NewReader":                  "lzma",
-	"github.com/klauspost/compress/zstd.NewReader":   "zstd",
+	"compress/gzip.NewReader":                      "gzip",
+	"compress/bzip2.NewReader":                     "bzip2",
+	"github.com/xi2/xz.NewReader":                  "xz",
+	"github.com/kjk/lzma.NewReader":                "lzma",
+	"github.com/klauspost/compress/zstd.NewReader": "zstd",
 }
 
 func debProv(st *State, v Val) string {
@@ -92,7 +92,7 @@ func debMachine(p *Prog, sc debScenario) *Machine {
 			for _, a := range args[1:] {
 				extra += "," + valStr(a)
 			}
-			note(st, "ctor:" + short + "(" + debProv(st, args[0]) + extra + ")")
+			note(st, "ctor:"+short+"("+debProv(st, args[0])+extra+")")
 			res := opaque(st, short+"("+debProv(st, args[0])+")")
 			sig := call.Signature().Results()
 			if sig.Len() == 1 {
@@ -120,7 +120,7 @@ func debMachine(p *Prog, sc debScenario) *Machine {
 				n++
 			}
 		}
-		note(st, "tarnext:" + who)
+		note(st, "tarnext:"+who)
 		if n >= len(sc.tarEntries) || tarHdr == nil {
 			return []Val{&TupleV{E: []Val{nilV{}, eofVal}}}, true
 		}
@@ -131,7 +131,7 @@ func debMachine(p *Prog, sc debScenario) *Machine {
 		return []Val{opaque(st, "bufio("+debProv(st, args[0])+")")}, true
 	}
 	m.Hooks["(*bufio.Reader).ReadString"] = func(m *Machine, st *State, call *ssa.CallCommon, args []Val) ([]Val, bool) {
-		note(st, "readstring:" + debProv(st, args[0]))
+		note(st, "readstring:"+debProv(st, args[0]))
 		if !strings.HasSuffix(sc.binary, "\n") {
 			return []Val{&TupleV{E: []Val{sc.binary, eofVal}}}, true
 		}
@@ -139,14 +139,14 @@ func debMachine(p *Prog, sc debScenario) *Machine {
 		return []Val{&TupleV{E: []Val{first, nilV{}}}}, true
 	}
 	m.Hooks[repoModule+"/control.Unmarshal"] = func(m *Machine, st *State, call *ssa.CallCommon, args []Val) ([]Val, bool) {
-		note(st, "unmarshal:" + debProv(st, args[1]))
+		note(st, "unmarshal:"+debProv(st, args[1]))
 		tgt := "?"
 		if iv, ok := args[0].(IfaceV); ok {
 			if pp, ok := iv.V.(Ptr); ok {
 				tgt = pp.Path
 			}
 		}
-		note(st, "unmarshal-target:" + tgt)
+		note(st, "unmarshal-target:"+tgt)
 		if sc.unmarshalErr {
 			return []Val{IfaceV{T: errType, V: "bad control file"}}, true
 		}
@@ -171,13 +171,13 @@ func debMachine(p *Prog, sc debScenario) *Machine {
 		for _, e := range elems {
 			ps = append(ps, debProv(st, e))
 		}
-		note(st, "multireader:" + strings.Join(ps, "+"))
+		note(st, "multireader:"+strings.Join(ps, "+"))
 		return []Val{IfaceV{T: ifT, V: opaque(st, "multi("+strings.Join(ps, "+")+")")}}, true
 	}
 	m.InvokeHook = func(m *Machine, st *State, call *ssa.CallCommon, recv Val, args []Val) ([]Val, bool) {
 		switch call.Method.Name() {
 		case "Close":
-			note(st, "close:" + debProv(st, recv))
+			note(st, "close:"+debProv(st, recv))
 			if sc.closeErr {
 				return []Val{IfaceV{T: errType, V: "close failed"}}, true
 			}
